@@ -355,7 +355,7 @@ class ResNetwork(GeoNetwork):
         # the admittance matrix
         self.adm_graph = igraph.Graph(n=self.N, edges=edgeList,
                                       directed=self.directed)
-        self.graph.simplify()
+        self.adm_graph.simplify()
 
     def get_admittance(self):
         """Return the (possibly non-symmetric) dense admittance matrix
